@@ -127,7 +127,7 @@ func keysOf(m map[string]bool) string {
 }
 
 func checkC14(r *core.Run) {
-	r.Explain = "Decided statically: (C14.nonblock) every send on MessageFuture.Done cannot block: the channel's only make site has capacity >= 1, or the send sits in a select with a default arm; (C14.table) a pending future is stored only when a waiter exists, the waiter's timeout arm and the write-failure path delete from the same table the store wrote, delivery removes the future after notifying, and nobody else removes one (the waiter on timeout, the failed write, a processor after notifying); (C14.ids) the key stored is the ID of the message handed to WritePkg, delivery looks up the received frame's ID, and every message sent with a waiter takes its ID from one atomic counter object; (C14.timeout) the waiter has a timeout arm returning a non-nil error, and every callback handed to the send together with a stored future reaches that waiter (directly or through a goroutine it starts). NOT decided: schedules; connection loss while requests are pending (getty behaviour)."
+	r.Explain = "Decided statically: (C14.nonblock) every send on MessageFuture.Done cannot block: the channel's only make site has capacity >= 1, or the send sits in a select with a default arm; (C14.table) a pending future is stored only when a waiter exists, the waiter's timeout arm and the write-failure path delete from the same table the store wrote, delivery removes the future after notifying, and nobody else removes one (the waiter on timeout, the failed write, a processor after notifying); (C14.ids) the key stored is the ID of the message handed to WritePkg, delivery looks up the received frame's ID, and every message sent with a waiter takes its ID from one atomic counter object; (C14.timeout) the waiter has a timeout arm returning a non-nil error, and every callback handed to the send together with a stored future reaches that waiter (directly or through a goroutine it starts). (C14.timeout, also) every receive from MessageFuture.Done is an arm of a blocking select in a function the reply path does not reach (nobody but the waiting requester takes the completion token). NOT decided: schedules; connection loss while requests are pending (getty behaviour)."
 	r.Trusted = []string{"go/types, go/cfg", "sync.Map", "C13.mirror ties RpcMessage.ID to the header's request id"}
 	w := r.W
 	mf := w.NamedType("pkg/protocol/message", "MessageFuture")
@@ -779,6 +779,7 @@ func checkC14(r *core.Run) {
 			r.Bad("C14.timeout", "INSTANCE-FLOOR callbacks handed to the send", "", "fewer than the two callback hand-overs (sync, async) confirmed by hand")
 		}
 	}
+	c14Receivers(r, mf)
 	r.Floor("C14.nonblock", 1) // one send when the future completes itself in a method; the delivery-site count above guards the rest
 	r.Floor("C14.table", 6)
 	r.Floor("C14.ids", 7)
@@ -831,4 +832,98 @@ func onlyCalledFrom(w *core.World, f, target *core.FuncInfo, depth int) bool {
 		}
 	}
 	return n > 0
+}
+
+// c14Receivers (C14.timeout): the completion token of a future — the one value sent on Done — is taken by the
+// requester only. Every receive from MessageFuture.Done is an arm of a blocking select (no default arm) in a
+// function that the reply path (the client processors' Process, which notify and then remove the future) does not
+// reach: a deliverer or a remover that drains the channel takes the token of a requester that has not begun to wait
+// yet, and that requester waits for the whole timeout although its reply arrived.
+func c14Receivers(r *core.Run, mf *types.Named) {
+	w := r.W
+	var roots []*core.FuncInfo
+	for _, f := range w.SortedFuncs() {
+		if !w.IsTestFile(f.Decl.Pos()) && strings.HasSuffix(f.Pkg.PkgPath, "/processor/client") && f.Obj.Name() == "Process" && f.Decl.Body != nil {
+			roots = append(roots, f)
+		}
+	}
+	reply := map[*core.FuncInfo]bool{}
+	for _, f := range reachFrom(w, roots, core.Module+"/pkg/remoting", core.Module+"/pkg/protocol") {
+		reply[f] = true
+	}
+	isDone := func(info *types.Info, e ast.Expr) bool {
+		u, ok := ast.Unparen(e).(*ast.UnaryExpr)
+		if !ok || u.Op != token.ARROW {
+			return false
+		}
+		sel, ok := ast.Unparen(u.X).(*ast.SelectorExpr)
+		if !ok {
+			return false
+		}
+		v, ok := info.Uses[sel.Sel].(*types.Var)
+		if !ok || !v.IsField() || v.Name() != "Done" {
+			return false
+		}
+		t := info.TypeOf(sel.X)
+		if p, isP := t.(*types.Pointer); isP {
+			t = p.Elem()
+		}
+		return t == types.Type(mf)
+	}
+	n := 0
+	for _, f := range w.SortedFuncs() {
+		if w.IsTestFile(f.Decl.Pos()) || strings.Contains(f.Pkg.PkgPath, "/mock") || f.Decl.Body == nil {
+			continue
+		}
+		info := f.Pkg.TypesInfo
+		// receives that are the communication of a select arm, with that select
+		inSelect := map[ast.Expr]*ast.SelectStmt{}
+		ast.Inspect(f.Decl.Body, func(nd ast.Node) bool {
+			ss, ok := nd.(*ast.SelectStmt)
+			if !ok {
+				return true
+			}
+			for _, c := range ss.Body.List {
+				cc := c.(*ast.CommClause)
+				switch x := cc.Comm.(type) {
+				case *ast.ExprStmt:
+					inSelect[ast.Unparen(x.X)] = ss
+				case *ast.AssignStmt:
+					if len(x.Rhs) == 1 {
+						inSelect[ast.Unparen(x.Rhs[0])] = ss
+					}
+				}
+			}
+			return true
+		})
+		ast.Inspect(f.Decl.Body, func(nd ast.Node) bool {
+			e, ok := nd.(ast.Expr)
+			if !ok || !isDone(info, e) {
+				return true
+			}
+			n++
+			r.Sites++
+			r.Fn(f)
+			why := ""
+			ss := inSelect[ast.Unparen(e)]
+			switch {
+			case reply[f]:
+				why = "the function is on the reply path (reached from a client processor's Process)"
+			case ss == nil:
+				why = "the receive is not an arm of a select with a timeout"
+			default:
+				for _, c := range ss.Body.List {
+					if c.(*ast.CommClause).Comm == nil {
+						why = "the select has a default arm: it takes the token if it is there and goes on otherwise"
+					}
+				}
+			}
+			r.Check(why == "", "C14.timeout", core.ShortKey(f.Obj)+" : the completion token is taken by the waiting requester only", w.Pos(e.Pos()), "blocking select of the waiter, off the reply path",
+				why+": a reply handled before its requester started to wait leaves the token in the buffered channel; whoever else receives from it makes that requester wait for the whole timeout and fail, although its own reply arrived")
+			return true
+		})
+	}
+	if n == 0 {
+		r.Undecided("C14.timeout", "receives from MessageFuture.Done", "", "none found")
+	}
 }
